@@ -163,9 +163,14 @@ class Cadence(collections.abc.MutableSequence):
         to :func:`~setigen.frame.Frame.add_signal`.
         """
         for frame in self.frames:
-            frame.ts += frame.t_start - self.t_start
-            frame.add_signal(*args, **kwargs)
-            frame.ts -= frame.t_start - self.t_start
+            ts = frame.ts
+            frame.ts = ts + (frame.t_start - self.t_start)
+            try:
+                frame.add_signal(*args, **kwargs)
+            finally:
+                # Always give the frame its own time axis back, even if the 
+                # injection raises part-way through
+                frame.ts = ts
         
     def apply(self, func):
         """
